@@ -135,9 +135,13 @@ Section CDSProofs.
   Lemma is_ref_mk : forall s, is_ref f (mk s) = true.
   Proof. intros s. unfold is_ref, mkkey. apply starts_with_app. Qed.
 
+  Notation resolve_cold := (resolve_cold V deser f).
+
+  (* The backend rows and the LRU entries are content-addressed INDEPENDENTLY of each other: a purge of
+     the backend by another instance may leave LRU entries without a row. *)
   Definition Inv (s : st) : Prop :=
     (forall k x, lookupS k (store s) = Some x -> k = mk x /\ T x) /\
-    (forall k x, In (k, x) (lru s) -> exists t, lookupS k (store s) = Some t /\
+    (forall k x, In (k, x) (lru s) -> exists t, k = mk t /\ T t /\
         match x with CText t' => t' = t | CObj a => lookupA a (heap s) = Some (deser t) end) /\
     (forall a v, lookupA a (heap s) = Some v -> a < next s) /\
     (lru_holds_object f = false -> forall k a, ~ In (k, CObj a) (lru s)).
@@ -162,7 +166,7 @@ Section CDSProofs.
   Proof.
     intros s v (I1 & I3 & I4 & I5). unfold Inv. split; [|split; [|split]].
     - exact I1.
-    - intros k x Hin. cbn in Hin. destruct (I3 k x Hin) as (t & Ht & Hx). exists t. split; [exact Ht|].
+    - intros k x Hin. cbn in Hin. destruct (I3 k x Hin) as (t & Hk & Tt & Hx). exists t. split; [exact Hk|]. split; [exact Tt|].
       destruct x as [a|t']; [|exact Hx]. apply lookupA_alloc; assumption.
     - cbn. intros a w. destruct (a =? next s) eqn:E.
       + apply N.eqb_eq in E. intros _. lia.
@@ -170,48 +174,23 @@ Section CDSProofs.
     - exact I5.
   Qed.
 
-  (* adding (mk t, t) to the store and caching an entry that agrees with it *)
-  Lemma Inv_store_put : forall (s : st) t lru', Inv s -> T t ->
-    (forall k x, In (k, x) lru' -> (k, x) = (mk t, CText t) \/
-        (exists a, (k, x) = (mk t, CObj a) /\ lru_holds_object f = true /\ lookupA a (heap s) = Some (deser t)) \/
-        In (k, x) (lru s)) ->
-    Inv {| store := upsertS (mk t) t (store s); lru := lru'; heap := heap s; next := next s |}.
-  Proof.
-    intros s t lru' (I1 & I3 & I4 & I5) Ht Hsub. unfold Inv. cbn [store lru heap next]. split; [|split; [|split]].
-    - intros k x Hl. destruct (list_eq_dec N.eq_dec k (mk t)) as [->|Hne].
-      + rewrite lookupS_upsert_same in Hl. inversion Hl. subst. auto.
-      + rewrite lookupS_upsert_other in Hl by exact Hne. apply I1. exact Hl.
-    - intros k x Hin. destruct (Hsub k x Hin) as [Heq|[(a & Heq & _ & Ha)|Hold]].
-      + inversion Heq; subst. exists t. rewrite lookupS_upsert_same. auto.
-      + inversion Heq; subst. exists t. rewrite lookupS_upsert_same. auto.
-      + destruct (I3 k x Hold) as (t0 & Ht0 & Hx).
-        destruct (list_eq_dec N.eq_dec k (mk t)) as [->|Hne].
-        * destruct (I1 _ _ Ht0) as [Hk Tt0]. assert (t0 = t) by (apply mk_inj; auto). subst t0.
-          exists t. rewrite lookupS_upsert_same. auto.
-        * exists t0. rewrite lookupS_upsert_other by exact Hne. auto.
-    - exact I4.
-    - intros Hf k a Hin. destruct (Hsub k (CObj a) Hin) as [Heq|[(a' & _ & Hf' & _)|Hold]].
-      + discriminate.
-      + congruence.
-      + exact (I5 Hf k a Hold).
-  Qed.
-
-  (* changing only the LRU, with entries that agree with the store *)
-  Lemma Inv_lru : forall (s : st) lru', Inv s ->
+  (* replacing backend rows, LRU and remembered keys by content-addressed ones (heap untouched) *)
+  Lemma Inv_update : forall (s : st) store' lru' known', Inv s ->
+    (forall k x, lookupS k store' = Some x -> (k = mk x /\ T x) \/ lookupS k (store s) = Some x) ->
     (forall k x, In (k, x) lru' ->
-        (exists t, lookupS k (store s) = Some t /\ x = CText t) \/
-        (exists t a, lookupS k (store s) = Some t /\ x = CObj a /\ lru_holds_object f = true /\ lookupA a (heap s) = Some (deser t)) \/
+        (exists t, k = mk t /\ T t /\ x = CText t) \/
+        (exists t a, k = mk t /\ T t /\ x = CObj a /\ lru_holds_object f = true /\ lookupA a (heap s) = Some (deser t)) \/
         In (k, x) (lru s)) ->
-    Inv {| store := store s; lru := lru'; heap := heap s; next := next s |}.
+    Inv {| store := store'; lru := lru'; heap := heap s; next := next s; known := known' |}.
   Proof.
-    intros s lru' (I1 & I3 & I4 & I5) Hsub. unfold Inv. cbn [store lru heap next]. split; [|split; [|split]].
-    - exact I1.
-    - intros k x Hin. destruct (Hsub k x Hin) as [(t & Ht & ->)|[(t & a & Ht & -> & _ & Ha)|Hold]].
+    intros s store' lru' known' (I1 & I3 & I4 & I5) Hst Hsub. unfold Inv. cbn [store lru heap next]. split; [|split; [|split]].
+    - intros k x Hl. destruct (Hst k x Hl) as [Hnew|Hold]; [exact Hnew|apply I1; exact Hold].
+    - intros k x Hin. destruct (Hsub k x Hin) as [(t & Hk & Tt & ->)|[(t & a & Hk & Tt & -> & _ & Ha)|Hold]].
       + exists t. auto.
       + exists t. auto.
       + apply I3. exact Hold.
     - exact I4.
-    - intros Hf k a Hin. destruct (Hsub k (CObj a) Hin) as [(t & _ & Hx)|[(t & a' & _ & _ & Hf' & _)|Hold]].
+    - intros Hf k a Hin. destruct (Hsub k (CObj a) Hin) as [(t & _ & _ & Hx)|[(t & a' & _ & _ & _ & Hf' & _)|Hold]].
       + discriminate.
       + congruence.
       + exact (I5 Hf k a Hold).
@@ -228,12 +207,16 @@ Section CDSProofs.
     destruct (disabled c || dis); [inversion Hs; subst; exact HI1|].
     destruct (if ref_passthrough f then as_ref v else None); [inversion Hs; subst; exact HI1|].
     destruct (route f c (slen (ser v))); [|inversion Hs; subst; exact HI1].
-    inversion Hs; subst s' d. apply Inv_store_put; [exact HI1|exact Ht|].
-    intros k x Hin. apply In_lru_put in Hin. destruct Hin as [Heq|Hin]; [|right; right; exact Hin].
-    destruct (entry_cases a (ser v)) as [[He Hf]|[He Hf]]; rewrite He in Heq.
-    - left. exact Heq.
-    - right. left. exists a. split; [exact Heq|]. split; [exact Hf|].
-      unfold alloc in Ea. inversion Ea; subst. cbn. rewrite N.eqb_refl. rewrite ser_deser. reflexivity.
+    inversion Hs; subst s' d. apply (Inv_update s1); [exact HI1| |].
+    - intros k x Hl. destruct (store_skip_known f && memS (mk (ser v)) (known s1)); [right; exact Hl|].
+      destruct (list_eq_dec N.eq_dec k (mk (ser v))) as [->|Hne].
+      + rewrite lookupS_upsert_same in Hl. inversion Hl. subst. left. auto.
+      + rewrite lookupS_upsert_other in Hl by exact Hne. right. exact Hl.
+    - intros k x Hin. apply In_lru_put in Hin. destruct Hin as [Heq|Hin]; [|right; right; exact Hin].
+      destruct (entry_cases a (ser v)) as [[He Hf]|[He Hf]]; rewrite He in Heq; inversion Heq; subst.
+      + left. exists (ser v). auto.
+      + right. left. exists (ser v), a. repeat split; auto.
+        unfold alloc in Ea. inversion Ea; subst. cbn. rewrite N.eqb_refl. rewrite ser_deser. reflexivity.
   Qed.
 
   Lemma resolve_Inv : forall s d s' r, Inv s -> resolve s d = (s', r) -> Inv s'.
@@ -241,23 +224,35 @@ Section CDSProofs.
     intros s d s' r HI Hr. unfold CDS.resolve in Hr.
     destruct (is_ref f d).
     - destruct (lookupS d (lru s)) as [[a|t]|] eqn:El.
-      + inversion Hr; subst. apply (Inv_lru s); [exact HI|].
+      + inversion Hr; subst. apply (Inv_update s); [exact HI|intros k x Hl; right; exact Hl|].
         intros k x Hin. apply In_lru_touch in Hin. destruct Hin as [Heq|Hin]; [|right; right; exact Hin].
         inversion Heq; subst. right. right. apply lookupS_In. exact El.
       + pose proof (Inv_alloc s (deser t) HI) as HI1.
         destruct (alloc V s (deser t)) as [s1 a] eqn:Ea. cbn [fst] in HI1. inversion Hr; subst.
-        apply (Inv_lru s1); [exact HI1|].
+        apply (Inv_update s1); [exact HI1|intros k x Hl; right; exact Hl|].
         intros k x Hin. apply In_lru_touch in Hin. destruct Hin as [Heq|Hin]; [|right; right; exact Hin].
         inversion Heq; subst. right. right. unfold alloc in Ea. inversion Ea; subst. cbn. apply lookupS_In. exact El.
       + destruct (lookupS d (store s)) as [t|] eqn:Es; [|inversion Hr; subst; exact HI].
         pose proof (Inv_alloc s (deser t) HI) as HI1.
-        destruct (alloc V s (deser t)) as [s1 a] eqn:Ea. cbn [fst] in HI1. inversion Hr; subst.
-        apply (Inv_lru s1); [exact HI1|].
+        destruct HI as (I1 & _). destruct (I1 _ _ Es) as [Hd Tt].
+        destruct (alloc V s (deser t)) as [s1 a] eqn:Ea. cbn [fst] in HI1. inversion Hr; subst s' r.
+        apply (Inv_update s1); [exact HI1|intros k x Hl; right; exact Hl|].
         intros k x Hin. apply In_lru_put in Hin. destruct Hin as [Heq|Hin]; [|right; right; exact Hin].
-        unfold alloc in Ea. inversion Ea; subst. cbn [store heap].
-        destruct (entry_cases (next s) t) as [[He Hf]|[He Hf]]; rewrite He in Heq; inversion Heq; subst.
+        unfold alloc in Ea. inversion Ea; subst s1 a. cbn [store heap].
+        destruct (entry_cases (next s) t) as [[He Hf]|[He Hf]]; rewrite He in Heq; inversion Heq; subst k x.
         * left. exists t. auto.
         * right. left. exists t, (next s). repeat split; auto. cbn. rewrite N.eqb_refl. reflexivity.
+    - pose proof (Inv_alloc s (deser d) HI) as HI1.
+      destruct (alloc V s (deser d)) as [s1 a]. inversion Hr; subst. exact HI1.
+  Qed.
+
+  Lemma resolve_cold_Inv : forall s d s' r, Inv s -> resolve_cold s d = (s', r) -> Inv s'.
+  Proof.
+    intros s d s' r HI Hr. unfold CDS.resolve_cold in Hr.
+    destruct (is_ref f d).
+    - destruct (lookupS d (store s)) as [t|]; [|inversion Hr; subst; exact HI].
+      pose proof (Inv_alloc s (deser t) HI) as HI1.
+      destruct (alloc V s (deser t)) as [s1 a]. inversion Hr; subst. exact HI1.
     - pose proof (Inv_alloc s (deser d) HI) as HI1.
       destruct (alloc V s (deser d)) as [s1 a]. inversion Hr; subst. exact HI1.
   Qed.
@@ -265,29 +260,35 @@ Section CDSProofs.
   Definition quiet_op (o : op V) : Prop := lru_holds_object f = false \/ is_mut V o = false.
   Definition text_ok (o : op V) : Prop := forall t, In t (op_text V ser o) -> T t.
 
+  (* every operation - the two purges included - keeps the invariant *)
   Lemma step_Inv : forall s o, Inv s -> quiet_op o -> text_ok o -> Inv (fst (step s o)).
   Proof.
-    intros s o HI Hq Ht. destruct o as [v dis|d|a v]; cbn [CDS.step].
+    intros s o HI Hq Ht. destruct o as [v dis|d|a v|d| |]; cbn [CDS.step].
     - destruct (serialize s v dis) as [s' d] eqn:E. cbn. eapply serialize_Inv; eauto. apply Ht. cbn. auto.
     - destruct (resolve s d) as [s' [a|]] eqn:E; cbn; eapply resolve_Inv; eauto.
     - cbn. destruct Hq as [Hf|Hm]; [|discriminate].
       destruct HI as (I1 & I3 & I4 & I5). unfold Inv. cbn [store lru heap next]. split; [|split; [|split]].
       + exact I1.
-      + intros k x Hin. destruct (I3 k x Hin) as (t & Ht' & Hx). exists t. split; [exact Ht'|].
+      + intros k x Hin. destruct (I3 k x Hin) as (t & Hk & Tt & Hx). exists t. split; [exact Hk|]. split; [exact Tt|].
         destruct x as [a0|t']; [|exact Hx]. exfalso. exact (I5 Hf k a0 Hin).
       + intros a' w. rewrite lookupA_set_heap. destruct (a' =? a) eqn:E.
         * apply N.eqb_eq in E. subst a'. destruct (lookupA a (heap s)) eqn:El; [|discriminate]. intros _. eapply I4. exact El.
         * apply I4.
       + exact I5.
+    - destruct (resolve_cold s d) as [s' [a|]] eqn:E; cbn; eapply resolve_cold_Inv; eauto.
+    - cbn. unfold purge_own. apply (Inv_update s); [exact HI|intros k x Hl; discriminate|intros k x []].
+    - cbn. unfold purge_ext. apply (Inv_update s); [exact HI|intros k x Hl; discriminate|intros k x Hin; right; right; exact Hin].
   Qed.
 
-  Lemma step_store_mono : forall s o k t, lookupS k (store s) = Some t ->
+  (* a backend row only disappears through a purge (whether or not writes of remembered keys are skipped) *)
+  Lemma step_store_mono : forall s o k t, is_purge V o = false -> lookupS k (store s) = Some t ->
     exists t', lookupS k (store (fst (step s o))) = Some t'.
   Proof.
-    intros s o k t Hl. destruct o as [v dis|d|a v]; cbn [CDS.step].
+    intros s o k t Hnp Hl. destruct o as [v dis|d|a v|d| |]; cbn [CDS.step]; try discriminate.
     - unfold CDS.serialize. cbn [alloc]. destruct (disabled c || dis); [cbn; eauto|].
       destruct (if ref_passthrough f then as_ref v else None); [cbn; eauto|].
       destruct (route f c (slen (ser v))); [|cbn; eauto]. cbn.
+      destruct (store_skip_known f && memS (mk (ser v)) (known s)); [eauto|].
       destruct (list_eq_dec N.eq_dec k (mk (ser v))) as [->|Hne].
       + rewrite lookupS_upsert_same. eauto.
       + rewrite lookupS_upsert_other by exact Hne. eauto.
@@ -296,21 +297,25 @@ Section CDSProofs.
         destruct (lookupS d (store s)); cbn; eauto.
       + cbn. eauto.
     - cbn. eauto.
+    - unfold CDS.resolve_cold. destruct (is_ref f d).
+      + destruct (lookupS d (store s)); cbn; eauto.
+      + cbn. eauto.
   Qed.
 
   Definition quiet (ops : list (op V)) : Prop := forall o, In o ops -> quiet_op o.
   Definition texts_in (ops : list (op V)) : Prop := forall o, In o ops -> text_ok o.
+  Definition no_purge (ops : list (op V)) : Prop := forall o, In o ops -> is_purge V o = false.
 
-  Lemma run_Inv_keep : forall ops s k t, Inv s -> quiet ops -> texts_in ops -> lookupS k (store s) = Some t ->
+  Lemma run_Inv_keep : forall ops s k t, Inv s -> quiet ops -> texts_in ops -> no_purge ops -> lookupS k (store s) = Some t ->
     Inv (run s ops) /\ lookupS k (store (run s ops)) = Some t.
   Proof.
-    induction ops as [|o ops IH]; intros s k t HI Hq Ht Hl; cbn [CDS.run]; [auto|].
+    induction ops as [|o ops IH]; intros s k t HI Hq Ht Hnp Hl; cbn [CDS.run]; [auto|].
     assert (HI' : Inv (fst (step s o))) by (apply step_Inv; [exact HI|apply Hq; left; reflexivity|apply Ht; left; reflexivity]).
-    destruct (step_store_mono s o k t Hl) as (t' & Hl').
+    destruct (step_store_mono s o k t (Hnp o (or_introl eq_refl)) Hl) as (t' & Hl').
     assert (t' = t).
     { destruct HI as (I1 & _). destruct HI' as (I1' & _).
       destruct (I1 _ _ Hl) as [Hk Tt]. destruct (I1' _ _ Hl') as [Hk' Tt']. apply mk_inj; congruence. }
-    subst t'. apply IH; auto; intros o' Hin; [apply Hq|apply Ht]; right; exact Hin.
+    subst t'. apply IH; auto; intros o' Hin; [apply Hq|apply Ht|apply Hnp]; right; exact Hin.
   Qed.
 
   Lemma run_Inv : forall ops s, Inv s -> quiet ops -> texts_in ops -> Inv (run s ops).
@@ -320,45 +325,62 @@ Section CDSProofs.
       intros o' Hin; [apply Hq|apply Ht]; right; exact Hin.
   Qed.
 
-  (* resolving a reference whose content is in the store yields an object with that content *)
+  (* resolving a reference whose content is in the backend yields an object with that content - through
+     this instance's LRU ... *)
   Lemma resolve_ref_content : forall s t, Inv s -> lookupS (mk t) (store s) = Some t ->
     exists s' a, resolve s (mk t) = (s', Some a) /\ lookupA a (heap s') = Some (deser t).
   Proof.
     intros s t HI Hl. unfold CDS.resolve. rewrite is_ref_mk.
-    destruct HI as (I1 & I3 & I4 & I5).
+    destruct HI as (I1 & I3 & I4 & I5). destruct (I1 _ _ Hl) as [_ Tt].
     destruct (lookupS (mk t) (lru s)) as [[a|t0]|] eqn:El.
-    - apply lookupS_In in El. destruct (I3 _ _ El) as (t1 & Ht1 & Hx). rewrite Hl in Ht1. inversion Ht1; subst t1.
+    - apply lookupS_In in El. destruct (I3 _ _ El) as (t1 & Hk & Tt1 & Hx). assert (t = t1) by (apply mk_inj; auto). subst t1.
       eexists. exists a. split; [reflexivity|]. exact Hx.
-    - apply lookupS_In in El. destruct (I3 _ _ El) as (t1 & Ht1 & Hx). rewrite Hl in Ht1. inversion Ht1; subst t1. subst t0.
+    - apply lookupS_In in El. destruct (I3 _ _ El) as (t1 & Hk & Tt1 & Hx). assert (t = t1) by (apply mk_inj; auto). subst t1. subst t0.
       eexists. exists (next s). split; [reflexivity|]. cbn. rewrite N.eqb_refl. reflexivity.
     - rewrite Hl. eexists. exists (next s). split; [reflexivity|]. cbn. rewrite N.eqb_refl. reflexivity.
   Qed.
 
-  (* MAIN: whatever happened before (ops1) and happens afterwards (ops2), the text returned by
-     serialize for a value v - inline or reference - resolves to an object whose value is v. *)
-  Theorem resolve_serialize : forall ops1 ops2 v dis s2 d,
-    quiet ops1 -> texts_in ops1 -> quiet ops2 -> texts_in ops2 -> T (ser v) ->
+  (* ... and on any other instance over the same backend *)
+  Lemma resolve_cold_ref_content : forall s t, lookupS (mk t) (store s) = Some t ->
+    exists s' a, resolve_cold s (mk t) = (s', Some a) /\ lookupA a (heap s') = Some (deser t).
+  Proof.
+    intros s t Hl. unfold CDS.resolve_cold. rewrite is_ref_mk, Hl.
+    eexists. exists (next s). split; [reflexivity|]. cbn. rewrite N.eqb_refl. reflexivity.
+  Qed.
+
+  (* MAIN: whatever happened before (ops1: purges by this or another instance included) and happens
+     afterwards (ops2: anything but a purge), the text returned by serialize for a value v - inline or
+     reference - resolves to an object whose value is v, on this instance AND on any other instance
+     over the same backend.  Needs the structural fact that _maybe_store writes the row every time. *)
+  Theorem resolve_serialize : store_skip_known f = false -> forall ops1 ops2 v dis s2 d,
+    quiet ops1 -> texts_in ops1 -> quiet ops2 -> texts_in ops2 -> no_purge ops2 -> T (ser v) ->
     (ref_passthrough f = true -> disabled c || dis = false -> as_ref v = None) ->
     serialize (run (st0 V) ops1) v dis = (s2, d) ->
-    exists s4 a, resolve (run s2 ops2) d = (s4, Some a) /\ lookupA a (heap s4) = Some v.
+    (exists s4 a, resolve (run s2 ops2) d = (s4, Some a) /\ lookupA a (heap s4) = Some v) /\
+    (exists s4 a, resolve_cold (run s2 ops2) d = (s4, Some a) /\ lookupA a (heap s4) = Some v).
   Proof.
-    intros ops1 ops2 v dis s2 d Hq1 Ht1 Hq2 Ht2 Tv Hguard Hs.
+    intros Hskip ops1 ops2 v dis s2 d Hq1 Ht1 Hq2 Ht2 Hnp Tv Hguard Hs.
     pose proof (run_Inv ops1 (st0 V) Inv_st0 Hq1 Ht1) as HI1.
     pose proof (serialize_Inv _ _ _ _ _ HI1 Tv Hs) as HI2.
-    assert (Hinline : d = ser v -> exists s4 a, resolve (run s2 ops2) d = (s4, Some a) /\ lookupA a (heap s4) = Some v).
-    { intros ->. unfold CDS.resolve. rewrite ser_not_ref. cbn [alloc]. eexists. eexists. split; [reflexivity|].
-      cbn. rewrite N.eqb_refl. rewrite ser_deser. reflexivity. }
+    assert (Hinline : d = ser v ->
+      (exists s4 a, resolve (run s2 ops2) d = (s4, Some a) /\ lookupA a (heap s4) = Some v) /\
+      (exists s4 a, resolve_cold (run s2 ops2) d = (s4, Some a) /\ lookupA a (heap s4) = Some v)).
+    { intros ->. unfold CDS.resolve, CDS.resolve_cold. rewrite ser_not_ref. cbn [alloc].
+      split; (eexists; eexists; split; [reflexivity|]; cbn; rewrite N.eqb_refl; rewrite ser_deser; reflexivity). }
     unfold CDS.serialize in Hs. cbn [alloc] in Hs.
     destruct (disabled c || dis) eqn:Ed; [inversion Hs; subst; apply Hinline; reflexivity|].
     assert (Hnone : (if ref_passthrough f then as_ref v else None) = None).
     { destruct (ref_passthrough f); [apply Hguard; reflexivity|reflexivity]. }
-    rewrite Hnone in Hs.
+    rewrite Hnone in Hs. rewrite Hskip in Hs. cbn [andb] in Hs.
     destruct (route f c (slen (ser v))); [|inversion Hs; subst; apply Hinline; reflexivity].
     injection Hs as Hs2 Hd. subst d.
     assert (Hl : lookupS (mk (ser v)) (store s2) = Some (ser v)) by (rewrite <- Hs2; cbn; apply lookupS_upsert_same).
-    destruct (run_Inv_keep ops2 s2 _ _ HI2 Hq2 Ht2 Hl) as [HI3 Hl3].
-    destruct (resolve_ref_content _ _ HI3 Hl3) as (s4 & a & Hr & Ha).
-    exists s4, a. split; [exact Hr|]. rewrite Ha, ser_deser. reflexivity.
+    destruct (run_Inv_keep ops2 s2 _ _ HI2 Hq2 Ht2 Hnp Hl) as [HI3 Hl3].
+    split.
+    - destruct (resolve_ref_content _ _ HI3 Hl3) as (s4 & a & Hr & Ha).
+      exists s4, a. split; [exact Hr|]. rewrite Ha, ser_deser. reflexivity.
+    - destruct (resolve_cold_ref_content _ _ Hl3) as (s4 & a & Hr & Ha).
+      exists s4, a. split; [exact Hr|]. rewrite Ha, ser_deser. reflexivity.
   Qed.
 
   (* content addressing: the reference is a function of the serialized content only *)
